@@ -2751,11 +2751,14 @@ class Cond(Generic[X, R], GFI[X, R]):
         (check, *rest_args) = args
         new_tr, w, discard = self.callee.update(tr.trs[0], x, *rest_args, **kwargs)
         new_tr_, w_, discard_ = self.callee_.update(tr.trs[1], x, *rest_args, **kwargs)
-        # Merge discarded values
-        merged_discard, _ = self.callee.merge(discard, discard_)
+        # The discarded values are those that were visible under the *old* condition.
+        merged_discard, _ = self.callee.merge(discard, discard_, tr.check)
+        new_cond_tr = CondTr(self, check, [new_tr, new_tr_])
+        # log p(new; new check) - log p(old; old check), also when the branch switches
+        # (equals where(check, w, w_) whenever check == tr.check).
         return (
-            CondTr(self, check, [new_tr, new_tr_]),
-            jnp.where(check, w, w_),
+            new_cond_tr,
+            tr.get_score() - new_cond_tr.get_score(),
             merged_discard,
         )
 
